@@ -62,7 +62,7 @@ theorem C19_refines_cursor (c : Cfg) (hv : c.Valid) (sc : Scanner σ) (prog : Li
       (runProg c sc prog Stream.init).2.position = (cu.idx : Int) ∧
       ((runProg c sc prog Stream.init).2.endOfStream = .past ↔ cu.delivered = true) ∧
       ((runProg c sc prog Stream.init).2.endOfStream ≠ .not → cu.idx = c.src.length) := by
-  obtain ⟨cu, hj, hs⟩ := runProg_sim hv sc prog (sim_init c)
+  obtain ⟨cu, hj, hs⟩ := runProg_sim hv sc prog (sim_init c hv)
   exact ⟨cu, hj, hs.pos_eq, hs.past_iff, hs.end_of⟩
 
 /-- **C19_bytes_in_order**: "nothing lost, nothing delivered twice" spelled out for a binary stream.
@@ -76,7 +76,7 @@ theorem C19_bytes_in_order (c : Cfg) (hv : c.Valid) (hb : c.typ = .binary) (sc :
       c.src.take (gotBytes prog (runProg c sc prog Stream.init).1).length ∧
     (runProg c sc prog Stream.init).2.position =
       ((gotBytes prog (runProg c sc prog Stream.init).1).length : Int) := by
-  obtain ⟨cu, hj, hs⟩ := runProg_sim hv sc prog (sim_init c)
+  obtain ⟨cu, hj, hs⟩ := runProg_sim hv sc prog (sim_init c hv)
   obtain ⟨_, hgot⟩ := judge_bytes c.spec hb sc prog _ {} cu hj
   have hle := hs.idx_le
   have hlen : (gotBytes prog (runProg c sc prog Stream.init).1).length = cu.idx := by
@@ -98,7 +98,7 @@ theorem C19_chars_in_order (c : Cfg) (hv : c.Valid) (ht : c.typ = .text) (runes 
       runes.take (gotChars prog (runProg c sc prog Stream.init).1).length ∧
     (runProg c sc prog Stream.init).2.position =
       ((encAll (gotChars prog (runProg c sc prog Stream.init).1)).length : Int) := by
-  obtain ⟨cu, hj, hs⟩ := runProg_sim hv sc prog (sim_init c)
+  obtain ⟨cu, hj, hs⟩ := runProg_sim hv sc prog (sim_init c hv)
   obtain ⟨k', _, hk', hidx, hgot⟩ :=
     judge_chars c.spec ht runes hg hsrc sc prog _ {} cu 0 hnr (Nat.zero_le _) (by simp [encAll]) hj
   simp only [List.drop_zero, Nat.sub_zero] at hgot
@@ -113,7 +113,7 @@ theorem C19_chars_in_order (c : Cfg) (hv : c.Valid) (ht : c.typ = .text) (runes 
 theorem C19_reachable_sim {c : Cfg} (hv : c.Valid) {sc : Scanner σ} {s : Stream} (h : Reachable c sc s) :
     ∃ cu, Sim c s cu := by
   obtain ⟨prog, rfl⟩ := h
-  obtain ⟨cu, _, hs⟩ := runProg_sim hv sc prog (sim_init c)
+  obtain ⟨cu, _, hs⟩ := runProg_sim hv sc prog (sim_init c hv)
   exact ⟨cu, hs⟩
 
 /-- **C19_no_internal_error**: on a reachable stream no operation ends in the catch-all error of the
@@ -446,8 +446,8 @@ theorem C19_deferred_unread_witness :
   revert this
   decide +kernel
 
-example : exCfg.Valid := by intro n h; simp [exCfg] at h
-example : exFile.Valid := by intro n h; simp [exFile] at h ⊢; omega
+example : exCfg.Valid := ⟨by intro n h; simp [exCfg] at h, rfl⟩
+example : exFile.Valid := ⟨by intro n h; simp [exFile] at h ⊢; omega, rfl⟩
 
 /-- one conjunction `peek_char, peek_char, get_char, get_char, get_char` on `é1` -/
 example : (runConj exCfg Clause.scanner [.peekChar, .peekChar, .getChar, .getChar, .getChar] Stream.init).1 =
